@@ -36,7 +36,7 @@ impl Scenario for EofScenario {
         &["ProbeIter (scripted end, optionally non-fused), ProbeSignal", "structural exhaustion model + independent closed-form remaining-frames count"]
     }
     fn assumptions(&self) -> &'static [&'static str] {
-        &["fork branches, Buffered and bus Outputs are not in this property's adaptor family (see DESIGN 9.2)"]
+        &["fork branches, Buffered and bus Outputs are not in this property's adaptor family (see DESIGN section 4, C05)"]
     }
     fn runs(&self, tier: &str) -> u64 {
         if tier == "quick" {
